@@ -1029,6 +1029,113 @@ def _expr(cfg, rng):
     return A ** 2
 
 
+TREE_LEAVES = ['id', 'scale', 'mult', 'const', 'square', 'sin', 'proxl1',
+               'proxl2sq', 'proxl2g', 'proxlinf', 'proxbox', 'proxccl1',
+               'proxtrans', 'zero']
+
+
+def _gen_tree(rng, depth):
+    if depth == 0 or rng.random() < 0.25:
+        return ['leaf', rng.choice(TREE_LEAVES), rng.getrandbits(16)]
+    op = rng.choice(['add', 'add', 'sub', 'sub', 'lscal', 'lscal', 'rscal',
+                     'comp', 'lvec', 'rvec', 'neg', 'vecadd', 'div'])
+    if op in ('add', 'sub', 'comp'):
+        return [op, _gen_tree(rng, depth - 1), _gen_tree(rng, depth - 1)]
+    if op in ('lscal', 'rscal', 'div'):
+        return [op, rng.choice([2.0, 0.5, -1.0, 0.0, 1.0, -0.25, 3.0]),
+                _gen_tree(rng, depth - 1)]
+    if op in ('lvec', 'rvec', 'vecadd'):
+        return [op, rng.getrandbits(16), _gen_tree(rng, depth - 1)]
+    return [op, _gen_tree(rng, depth - 1)]
+
+
+def _build_tree(t, S, cfg):
+    o = odl()
+    op = t[0]
+    if op == 'leaf':
+        kind, salt = t[1], t[2]
+        g = data(cfg, 'leaf', salt)
+        F = o.solvers
+        if kind == 'id':
+            return o.IdentityOperator(S)
+        if kind == 'zero':
+            return o.ZeroOperator(S)
+        if kind == 'scale':
+            return o.ScalingOperator(S, -0.5)
+        if kind == 'mult':
+            return o.MultiplyOperator(SP.rand_elem(S, g))
+        if kind == 'const':
+            return o.ConstantOperator(SP.rand_elem(S, g))
+        if kind == 'square':
+            return o.ufunc_ops.square(S)
+        if kind == 'sin':
+            return o.ufunc_ops.sin(S)
+        if kind == 'proxl1':
+            return F.L1Norm(S).proximal(0.7)
+        if kind == 'proxl2sq':
+            return F.L2NormSquared(S).proximal(0.7)
+        if kind == 'proxl2g':
+            from odl.solvers.nonsmooth.proximal_operators import proximal_l2
+            return proximal_l2(S, lam=0.5, g=SP.rand_elem(S, g))(0.7)
+        if kind == 'proxlinf':
+            return F.LpNorm(S, float('inf')).proximal(0.7)
+        if kind == 'proxbox':
+            return F.IndicatorBox(S, -0.5, 0.5).proximal(1.0)
+        if kind == 'proxccl1':
+            return F.L1Norm(S).convex_conj.proximal(0.7)
+        if kind == 'proxtrans':
+            return F.L2Norm(S).translated(SP.rand_elem(S, g)).proximal(0.7)
+        raise HarnessError(kind)
+    if op == 'add':
+        return _build_tree(t[1], S, cfg) + _build_tree(t[2], S, cfg)
+    if op == 'sub':
+        return _build_tree(t[1], S, cfg) - _build_tree(t[2], S, cfg)
+    if op == 'comp':
+        return _build_tree(t[1], S, cfg) * _build_tree(t[2], S, cfg)
+    if op == 'lscal':
+        return t[1] * _build_tree(t[2], S, cfg)
+    if op == 'rscal':
+        return _build_tree(t[2], S, cfg) * t[1]
+    if op == 'div':
+        if t[1] == 0:
+            raise Reject('division by zero scalar')
+        return _build_tree(t[2], S, cfg) / t[1]
+    if op == 'neg':
+        return -_build_tree(t[1], S, cfg)
+    v = SP.rand_elem(S, data(cfg, 'vec', t[1]))
+    if op == 'lvec':
+        return v * _build_tree(t[2], S, cfg)
+    if op == 'rvec':
+        return _build_tree(t[2], S, cfg) * v
+    if op == 'vecadd':
+        return _build_tree(t[2], S, cfg) + v
+    raise HarnessError(op)
+
+
+def tree_str(t):
+    if t[0] == 'leaf':
+        return t[1]
+    if t[0] in ('add', 'sub', 'comp'):
+        sym = {'add': '+', 'sub': '-', 'comp': 'o'}[t[0]]
+        return '({}{}{})'.format(tree_str(t[1]), sym, tree_str(t[2]))
+    if t[0] in ('lscal', 'rscal', 'div'):
+        return '{}[{}]({})'.format(t[0], t[1], tree_str(t[2]))
+    if t[0] == 'neg':
+        return '-({})'.format(tree_str(t[1]))
+    return '{}({})'.format(t[0], tree_str(t[2]))
+
+
+@recipe('expr_tree', c10=True, fam='expression', weight=14)
+def _expr_tree(cfg, rng):
+    """Random operator-arithmetic expression (depth <= 3) over linear,
+    nonlinear and proximal leaves, built with the overloaded operators so
+    that odl picks the expression classes and merges scalars itself."""
+    S = space(cfg, rng, want='real', maxsize=6)
+    tree = optf(cfg, rng, 'tree', lambda r: _gen_tree(r, r.randint(1, 3)))
+    cfg['treestr'] = tree_str(tree)
+    return _build_tree(tree, S, cfg)
+
+
 @recipe('functional_expr', fam='expression', weight=2)
 def _fexpr(cfg, rng):
     o = odl()
